@@ -130,13 +130,16 @@ def u64Max : Nat := 2 ^ 64 - 1
 /-- `1.0 / (rate as f64)`, correctly rounded binary64. -/
 def invRate (rate : Dy) : Dy := rneP 53 rate.recip.1 rate.recip.2
 
+/-- `x as f64` for an unsigned integer: exact below `2^53`, otherwise rounded to nearest even. -/
+def natToF64 (x : Nat) : Dy := if x < 2 ^ 53 then ⟨x, 0⟩ else rneP 53 x 1
+
 /-- `rate_to_n_alpha`: `n = inv as u64` (truncating, saturating), `alpha = (n+1) as f64 - inv`.
 The subtraction is kept exact here; `c12_alpha_exact` shows the exact value needs at most 53 bits
 whenever `1/rate < 2^53`, so the IEEE subtraction does not round (and `f64Encode` succeeds). -/
 def rateToNAlpha (rate : Dy) : Nat × Dy :=
   let inv := invRate rate
   let n := min inv.floor u64Max
-  (n, (rneP 53 (n + 1) 1).sub inv)
+  (n, (natToF64 (n + 1)).sub inv)
 
 /-- `1.0 / (i64::MAX as f32)` = `2^-63` -/
 def satThreshold : Dy := ⟨1, -63⟩
@@ -255,10 +258,10 @@ def scaledRate (A : Arith α) (scale : α) (g : Group α) : α :=
   else A.min (A.div (A.mul g.size scale) g.avg) (A.ofNat 1)
 
 /-- Put the groups into the order in which the implementation's hash map iterates (`order` lists
-group ids; ids not present are ignored, groups not listed keep their relative order at the end).
+group ids; repeated ids and ids not present are ignored, groups not listed keep their relative order at the end).
 Only the floating-point *sum* `congress_size` depends on it. -/
 def reorder (order : List Nat) (gs : List (Group α)) : List (Group α) :=
-  (order.filterMap fun id => gs.find? (·.gid = id)) ++ gs.filter (fun g => !order.contains g.gid)
+  (order.eraseDups.filterMap fun id => gs.find? (·.gid = id)) ++ gs.filter (fun g => !order.contains g.gid)
 
 /-- `update_rates` -/
 def updateRates (A : Arith α) (C : Consts) (order : List Nat) (s : State α) : State α :=
